@@ -24,6 +24,14 @@ def _rm(path):
         shutil.rmtree(path, ignore_errors=True)
 
 
+
+def _to(ctx, st, key, default):
+    """Stage timeouts are safety nets against runaway tools, not verdicts: a loaded machine
+    (other checks running on the same cores) must not turn a slow run into an infra failure.
+    Hangs of the code under test are detected inside the drivers (watchdogs emit `hang` events)."""
+    floor = int(os.environ.get("VERIF_TIMEOUT_FLOOR") or (1500 if ctx.tier == "quick" else 3600))
+    return max(int(st.get(key, default)), floor)
+
 class Ctx:
     def __init__(self, fam, prop, tier, seed, scratch):
         self.fam, self.prop, self.tier, self.seed, self.scratch = fam, prop, tier, seed, scratch
@@ -81,7 +89,7 @@ def stage_model(ctx, st):
     wd = ctx.scratch.sub("model-" + st["cfg"].replace(".cfg", ""))
     vlib.copy_specs(ctx.fam["family"], wd)
     r = vlib.run_tlc(wd, st["spec"], st["cfg"], workers=st.get("workers", 4),
-                     timeout=st.get("timeout", 600), heap_gb=st.get("heap_gb", 4),
+                     timeout=_to(ctx, st, "timeout", 600), heap_gb=st.get("heap_gb", 4),
                      coverage=st.get("coverage", False), xss=st.get("xss"))
     log("[model] %s/%s: %d generated, %d distinct, depth %d, %.1fs" %
         (st["spec"], st["cfg"], r.generated, r.distinct, r.depth, r.wall))
@@ -112,7 +120,7 @@ def generate(ctx, st):
     if st.get("gen_mode", "bfs") == "simulate":
         mode = ("simulate", st.get("num", 200), st.get("depth", 30))
     r = vlib.run_tlc(wd, st["gen_spec"], st["gen_cfg"], workers=st.get("gen_workers", 1 if mode else 4),
-                     timeout=st.get("gen_timeout", 600), mode=mode, seed=ctx.seed if mode else None,
+                     timeout=_to(ctx, st, "gen_timeout", 600), mode=mode, seed=ctx.seed if mode else None,
                      heap_gb=st.get("heap_gb", 4), xss=st.get("xss"))
     ctx.cmds.append(r.cmd)
     if r.timed_out and not mode:
@@ -164,7 +172,7 @@ def stage_gen_replay(ctx, st, only=None):
             f.write(json.dumps({"b": i, "v": v}, separators=(",", ":")) + "\n")
     res, outdir = vlib.run_driver(_fam_for(ctx, st), ctx.scratch.dir, st.get("driver_mode", "replay"),
                                   st.get("driver_args"), ctx.seed, ctx.tier, infile=infile,
-                                  timeout=st.get("driver_timeout", 420), test=st.get("go_test"))
+                                  timeout=_to(ctx, st, "driver_timeout", 420), test=st.get("go_test"))
     n = res.get("replayed", 0)
     log("[replay] %d items replayed on the real code, %d steps compared, %d mismatches, %.1fs" %
         (n, res.get("steps", 0), len(res.get("mismatches") or []), res["_wall"]))
@@ -222,7 +230,7 @@ def validate_traces(ctx, st, lines):
         f.write(json.dumps({"e": "meta", "starts": starts, "ends": ends}) + "\n")
         for ln in flat:
             f.write(json.dumps(ln, separators=(",", ":")) + "\n")
-    r = vlib.run_tlc(wd, st["trace_spec"], st["trace_cfg"], workers=1, timeout=st.get("timeout", 900),
+    r = vlib.run_tlc(wd, st["trace_spec"], st["trace_cfg"], workers=1, timeout=_to(ctx, st, "timeout", 900),
                      cont=True, heap_gb=st.get("heap_gb", 4), deque=st.get("deque", False), xss=st.get("xss"))
     ctx.cmds.append(r.cmd)
     if r.timed_out:
@@ -281,7 +289,7 @@ def stage_record_validate(ctx, st, only=None):
                 f.write(json.dumps({"b": i, "v": v}, separators=(",", ":")) + "\n")
         ctx.add_sample({"stage": "tlc_generated_scenario", "item": items[0]})
     res, outdir = vlib.run_driver(_fam_for(ctx, st), ctx.scratch.dir, st.get("driver_mode", "record"), args,
-                                  ctx.seed, ctx.tier, infile=infile, timeout=st.get("driver_timeout", 420),
+                                  ctx.seed, ctx.tier, infile=infile, timeout=_to(ctx, st, "driver_timeout", 420),
                                   test=st.get("go_test"))
     tf = os.path.join(outdir, "trace.ndjson")
     if not os.path.isfile(tf):
@@ -334,7 +342,7 @@ def stage_apalache(ctx, st):
     t0 = time.time()
     try:
         p = subprocess.run(cmd, cwd=wd, stdout=subprocess.PIPE, stderr=subprocess.STDOUT, text=True,
-                           timeout=st.get("timeout", 300))
+                           timeout=_to(ctx, st, "timeout", 300))
     except subprocess.TimeoutExpired:
         raise Infra("apalache timed out on " + st["spec"])
     ctx.cmds.append(" ".join(cmd[:-2] + [st["spec"]]))
